@@ -8,8 +8,8 @@ PLAN = dict(
          "each in NIST and GM mode) at the test level (interval 8; 1 in 12 histories at level one/two), constructor and reseed "
          "input lengths from {0,1,min-1,min,2min,200}, request sizes from {0,1,15,16,17,31,32,33,55,111,2047,2048,2049, block-1, "
          "block, block+1, 2block+1, 4096, 2049..4096, 65536(thorough)}, every output compared with harness/ref/drbg driven by the same history; "
-         "plus one 65536/65537-byte request per configuration and (thorough) one case that sleeps through the 6 s GM reseed time "
-         "interval. c17.reader: 6-14 Read calls of sizes {0,1,max-1,max,max+1,5max+3,random} on the reader wrapper with a scripted "
+         "plus one case per configuration with requests of max+1, 4097, 65536 and 65537 bytes (all to be refused) and (thorough) one case "
+         "that sleeps through the 6 s GM reseed time interval. c17.reader: 6-14 Read calls of sizes {0,1,max-1,max,max+1,5max+3,random} on the reader wrapper with a scripted "
          "entropy source. c17.faults (fault enumeration): configuration x {5 mon.FaultKind, stream ends} x source call index 0..6 "
          "(0 entropy, 1 nonce, 2..5 reseeds, 6 control). distinct = class keys (configuration | operation / size or length class / "
          "additional input / position of the reseed counter / outcome); no case is trivial",
@@ -25,8 +25,11 @@ PLAN = dict(
                  "GM reseed time interval: decided by bracketing with the monotonic clock (refusal required if the call began more than "
                  "the interval after the last (re)seed returned, forbidden if it returned within the interval after the (re)seed began, "
                  "either answer accepted in between); a reader-wrapper case that ran longer than the interval is inconclusive",
-                 "request sizes between the package's 2048-byte limit and the specification's 2^19 bits may be refused or served "
-                 "(served bytes are compared); HMAC Generate above 2^19 bits is recorded as an observation"],
+                 "the per-request maximum is the one the package documents and announces through MaxBytesPerRequest() for all three "
+                 "mechanisms (2048 bytes; one hash/cipher block for Hash and CTR in GM mode), which lies below SP 800-90A's 2^19 bits: a larger "
+                 "request must be refused without touching buffer or state (when the reseed is due as well, either error is accepted)",
+                 "GM/T 0105 defines no HMAC generator: in GM mode the HMAC constructor may or may not apply the minimum entropy/nonce length "
+                 "that its Reseed documents"],
 )
 
 CLAIM = dict(
